@@ -4,6 +4,7 @@
    topology change, depth→type lookups). -/
 import Hw.Attr.Distances
 import Driver.Util
+import Driver.Grouping
 namespace Driver.DistancesEng
 open Hw.Dist Driver
 
@@ -15,6 +16,8 @@ structure DState where
   handles : Array (Option Dist)
   slots : Array (Option (Pub × Bool))    -- (structure, stale)
   loaded : Bool := false
+  /-- `topology->grouping_next_subkind` (reset by every load, copied by dup) -/
+  subkind : Nat := 0
 
 def init : DState :=
   { st := State.init [], handles := Array.replicate NH none, slots := Array.replicate NS none }
@@ -103,7 +106,7 @@ def step (s : DState) (line : String) : DState × String :=
     match ann with
     | _rc :: rest =>
       let T := (parseLive rest).getD []
-      (staleAll { s with st := (xmlRoundTrip s.st T).2 }, "ok")
+      (staleAll { s with st := (xmlRoundTrip s.st T).2, subkind := if _rc == "ok" then 0 else s.subkind }, "ok")
     | _ => bad
   | ["create", h, name, kind, flags] =>
     match parseNat h, parseNat kind, parseNat flags with
@@ -137,10 +140,26 @@ def step (s : DState) (line : String) : DState × String :=
         match addCommit s.st d flags with
         | .error e => (s1, showErr e)
         | .ok st' =>
-          -- side stream: grouping may have inserted objects, the harness then lists the live objects
-          let st'' := if ann.isEmpty then st' else
-            match parseLive ann with | some T => { st' with topo := T } | none => st'
-          ({ s1 with st := st'' }, "ok")
+          -- grouping may have inserted objects, the harness then lists the live objects; with the GROUP flag it also gives
+          -- the dumps before and after the commit (sections separated by "##") and the inserted Groups are PREDICTED
+          match GroupingEng.splitTok "##" ann with
+          | [live] =>
+            let st'' := if live.isEmpty then st' else
+              match parseLive live with | some T => { st' with topo := T } | none => st'
+            ({ s1 with st := st'' }, "ok")
+          | [live, ["P", "0"]] =>
+            match parseLive live with
+            | some T => ({ s1 with st := { st' with topo := T } }, "ok U")
+            | none => bad
+          | [live, ["P", "1"], bef, aft] =>
+            match parseLive live, GroupingEng.parseDump bef, GroupingEng.parseDump aft with
+            | some T, .ok before, .ok after =>
+              let o := GroupingEng.predict before after d.n (d.objs.map (fun x => match x with | some y => y.gp | none => 0)) d.vals d.kind d.hetero s.subkind
+              ({ s1 with st := { st' with topo := T }, subkind := o.subkind }, "ok" ++ o.text)
+            | _, .error e, _ => (s1, "ok BAD-before-dump:" ++ e)
+            | _, _, .error e => (s1, "ok BAD-after-dump:" ++ e)
+            | none, _, _ => bad
+          | _ => bad
       | _ => (s, "nohandle")
     | _, _ => bad
   | ["get", slot0, cap, kind, flags] =>
